@@ -235,3 +235,36 @@ func TourWithdrawnSyncMembers(rt *rapid.T, muts []string) *ChainCase {
 	}
 	return cc
 }
+
+// TourLargeRegistry: more than 1024 validators on the official minimal preset (4 committees of ~32 per slot):
+// per-validator loops beyond their first 1024 iterations, aggregation bitfields longer than 4 bytes,
+// registry-parallel lists of dozens of chunks, sync committees without duplicate members.
+func TourLargeRegistry(rt *rapid.T) *ChainCase {
+	fork := rapid.SampledFrom([][4]uint64{{far, far, far, far}, {1, far, far, far}, {1, 1, 2, 2}, {1, 1, 1, 1}}).Draw(rt, "forks")
+	cc := &ChainCase{Profile: "full"}
+	cc.Config = ConfigCase{Family: "minimal", ForkEpochs: fork}
+	n := rapid.SampledFrom([]int{1025, 1030, 1100}).Draw(rt, "n")
+	cc.Genesis = GenesisCase{N: n, GenesisTime: 1000, Eth1Seed: rapid.Uint64().Draw(rt, "eth1_seed")}
+	for i := 0; i < n; i++ {
+		ac := 0
+		if i%97 == 0 {
+			ac = rapid.SampledFrom([]int{0, 4, 5}).Draw(rt, "amount_class")
+		}
+		cc.Genesis.AmountClass = append(cc.Genesis.AmountClass, ac)
+		cc.Genesis.Eth1Cred = append(cc.Genesis.Eth1Cred, true)
+	}
+	part := rapid.SampledFrom([]int{1000, 800, 600}).Draw(rt, "part")
+	for s := 1; s <= 20; s++ {
+		if s%5 == 0 {
+			cc.Actions = append(cc.Actions, Action{Kind: "skip", Slots: 1})
+			continue
+		}
+		p := tourBlock(rt, part)
+		p.SyncPm = rapid.SampledFrom([]int{1000, 700}).Draw(rt, "sync_pm")
+		if s == 3 || s == 11 {
+			p.NExits, p.NAttSlash, p.NPropSlash = 1, 1, 1
+		}
+		cc.Actions = append(cc.Actions, Action{Kind: "block", Slots: 1, Plan: p})
+	}
+	return cc
+}
